@@ -180,6 +180,55 @@ func runHistory(bi int, steps []step, le *logrus.Entry, emit func(map[string]any
 			case n.rxWake <- struct{}{}:
 			default:
 			}
+		case "flap":
+			// the partner's newest live incarnation sends a series while this incarnation's application abandons / restarts its receive call
+			var q *inc
+			for j := 1; j <= 3; j++ {
+				if m := incs[key(other[s.P], j)]; m != nil && m.up {
+					q = m
+				}
+			}
+			if q != nil {
+				var recs []*sendRec
+				for k := 0; k < 25; k++ {
+					r := &sendRec{p: q.p, i: q.i, data: fmt.Sprintf("flap-%d-%s%d-%d-%d", bi, q.p, q.i, len(sends), k)}
+					r.res.Store("pending")
+					recs = append(recs, r)
+				}
+				sends = append(sends, recs...)
+				fdone := make(chan struct{})
+				go func() {
+					defer close(fdone)
+					for _, r := range recs {
+						sctx, scancel := context.WithTimeout(q.ctx, 20*time.Second)
+						_, err := q.ref.Send(sctx, []byte(r.data))
+						scancel()
+						r.retSeq.Store(gseq.Add(1))
+						if err != nil {
+							r.res.Store("err")
+							return
+						}
+						r.res.Store("ok")
+					}
+				}()
+				for k := 0; k < 400; k++ {
+					select {
+					case <-fdone:
+						k = 400
+					default:
+					}
+					n.rxMu.Lock()
+					if n.rxStop != nil {
+						n.rxStop() // the application gives up the receive call in progress; the loop starts a new one
+					}
+					n.rxMu.Unlock()
+					time.Sleep(time.Duration(50+k%7*40) * time.Microsecond)
+				}
+				select {
+				case <-fdone:
+				case <-time.After(25 * time.Second):
+				}
+			}
 		case "send":
 			r := &sendRec{p: s.P, i: s.I, data: fmt.Sprintf("msg-%d-%s%d-%d", bi, s.P, s.I, len(sends))}
 			r.res.Store("pending")
